@@ -219,13 +219,19 @@ class SimFS:
     def rename(self, src, dst, replace=True):
         self.hook("rename", src, mut=True)
         sp, sn = self._lookup(src, want_parent=True)
+        dp, dn = self._lookup(dst, want_parent=True)
         node = sp.children.get(sn)
         if node is None:
             raise _err(errno.ENOENT, src, dst)
-        dp, dn = self._lookup(dst, want_parent=True)
+        if node.kind == "d":
+            a, b = posixpath.normpath(src), posixpath.normpath(dst)
+            if b.startswith(a + "/"):
+                raise _err(errno.EINVAL, src, dst)
         old = dp.children.get(dn)
         if old is node:
             return
+        if old is not None and posixpath.normpath(src).startswith(posixpath.normpath(dst) + "/"):
+            raise _err(errno.ENOTEMPTY, src, dst)
         if old is not None:
             if old.kind == "d" and node.kind != "d":
                 raise _err(errno.EISDIR, src, dst)
@@ -252,11 +258,11 @@ class SimFS:
     def link(self, src, dst):
         self.hook("link", src, mut=True)
         node = self._lookup(src)
-        if node.kind == "d":
-            raise _err(errno.EPERM, src, dst)
         dp, dn = self._lookup(dst, want_parent=True)
         if dn in dp.children:
             raise _err(errno.EEXIST, src, dst)
+        if node.kind == "d":
+            raise _err(errno.EPERM, src, dst)
         dp.children[dn] = node
         node.nlink += 1
         now = self.clock.stamp()
@@ -325,6 +331,8 @@ class SimFS:
                 node.mtime = node.ctime = now
                 self.mutations += 1
         of = OpenFile(node, readable, writable, append, posixpath.normpath(path), self.hook.owner())
+        if append:
+            of.pos = len(node.data)
         node.opens += 1
         self.open_files.append(of)
         return of
